@@ -4,7 +4,7 @@ import os, sys, glob, subprocess, concurrent.futures
 ROOT = os.path.dirname(os.path.dirname(os.path.abspath(__file__)))
 sys.path.insert(0, os.path.join(ROOT, "lib"))
 import vlib
-ok, log = vlib.coq_build(timeout=7200)
+ok, log = vlib.coq_make_all(timeout=7200)
 print(log[-3000:])
 if not ok:
     print("WARNING: Coq build incomplete"); 
